@@ -1,0 +1,22 @@
+//go:build verif
+
+package asn1
+
+// Verification hooks for property C01 (parsers of untrusted bytes never panic or hang).
+// Add-only; built only with -tags verif.
+
+// ZVC01ParseTagAndLength exposes parseTagAndLength (the DER header reader).
+func ZVC01ParseTagAndLength(bytes []byte, initOffset int) (class, tag, length int, isCompound bool, offset int, err error) {
+	t, off, err := parseTagAndLength(bytes, initOffset)
+	return t.class, t.tag, t.length, t.isCompound, off, err
+}
+
+// ZVC01InvalidLength exposes invalidLength.
+func ZVC01InvalidLength(offset, length, sliceLength int) bool {
+	return invalidLength(offset, length, sliceLength)
+}
+
+// ZVC01ParseBase128Int exposes parseBase128Int.
+func ZVC01ParseBase128Int(bytes []byte, initOffset int) (ret, offset int, err error) {
+	return parseBase128Int(bytes, initOffset)
+}
